@@ -313,6 +313,15 @@ class Monitor(object):
                 if m != 'readonly':
                     self.bad('attribution', 'read-only node announced on connection %d whose message was %r' % (c.cid, m))
                 self.named[c.cid] = 'readonly'
+                # ... and not one an EARLIER read-only connection of this transport carried: the application addresses its
+                # answers to Node(id) (a forwarded command still queued when its client went away is answered later), so a
+                # re-used id delivers the answer meant for a dead client to another one
+                for o_cid, o_id in self.ro_of.items():
+                    if o_cid != c.cid and o_id == node.id:
+                        self.bad('readonly-id-reuse', 'read-only connection %d was given the id %r that read-only connection %d '
+                                 'carried before: an answer still owed to the earlier client reaches the new one'
+                                 % (c.cid, node.id, o_cid))
+                        break
                 self.ro_of[c.cid] = node.id
                 # every read-only connection is a node of its own: its id must not be one a live connection carries
                 for o in self.w.conns:
